@@ -32,7 +32,7 @@ _COMMON_REAL = ["dagrt.codegen.fortran.CodeGenerator (whole pipeline)", "dagrt.c
 META = {
  "C03": {
     "level": "exploration",
-    "quick_runs": 1200,
+    "quick_runs": 1600,
     "block": 4,
     "block_limit": 1500,
     "thorough_budget_s": 1200,
